@@ -53,6 +53,7 @@ class Cfg:
     clones: Tuple[int, int] = (1, 8)         # probability (num, den) of making some records value-equal EntV clones
     kw_vars: Tuple[int, int] = (0, 1)        # probability that a variable is declared as T(From(d), field=const)
     const_operands: Tuple[int, int] = (1, 12)  # probability that an operand of and/or is a constant / variable-free test
+    earlier_sharing: Tuple[int, int] = (0, 1)  # probability of earlier queries that share comparison objects with the query
     extra_templates: Tuple[str, ...] = ()    # additional weight for named shape templates (needs >= 2 variables)
 
 
@@ -360,6 +361,41 @@ def template_cond(draw, ctx: Ctx, force=None):
     return ["not", draw(st.sampled_from(["not_", "~"])), inner]
 
 
+def _walk_cond(c):
+    yield c
+    if c[0] in ("and", "or"):
+        for x in c[2]:
+            yield from _walk_cond(x)
+    elif c[0] in ("not", "forall"):
+        yield from _walk_cond(c[2])
+    elif c[0] == "sub":
+        yield from _walk_cond(c[3])
+
+
+def earlier_queries_sharing_comparisons(draw, ctx: Ctx, cond, max_n: int = 2):
+    """One or two earlier queries (conditions) that contain comparison leaves of ``cond`` - as the SAME objects once built
+    (build.build_query) - in other connectives, so that the comparison is asked for other kinds of results (with or
+    without its false results, for all or for part of its bindings) than ``cond`` asks it for."""
+    leaves = [n for n in _walk_cond(cond) if n[0] in ("cmp", "in")]
+    if not leaves:
+        return None
+    out = []
+    for _ in range(draw(st.integers(1, max_n))):
+        k = draw(st.sampled_from(leaves))
+        other = leaf(draw, ctx, [draw(st.integers(0, ctx.nvars - 1))])
+        shape = draw(st.sampled_from(["alone", "or_left", "or_left", "or_right", "and_left", "and_right", "narrowed_or"]))
+        if shape == "alone":
+            c = k
+        elif shape in ("or_left", "or_right"):
+            c = ["or", "nary", [k, other] if shape == "or_left" else [other, k]]
+        elif shape in ("and_left", "and_right"):
+            c = ["and", "nary", [k, other] if shape == "and_left" else [other, k]]
+        else:
+            c = ["and", "nary", [leaf(draw, ctx, [draw(st.integers(0, ctx.nvars - 1))]), ["or", "nary", [k, other]]]]
+        out.append({"cond": c, "take": draw(st.sampled_from([None, None, None, 1, 2]))})
+    return out
+
+
 # ----------------------------------------------------------------------------- whole query cases
 
 def draw_domains(draw, cfg: Cfg, recs: List[dict], nvars: int):
@@ -422,6 +458,11 @@ def query_case(draw, cfg: Cfg):
     # an evaluation abandoned after k results (the consumer stops, the iterator is closed) precedes the evaluations
     # that are compared: what a query returns must not depend on it (honoured by qcheck.run_query and by C01)
     case["abandon_first"] = draw(st.sampled_from([0, 0, 0, 1, 2]))
+    if cond is not None and chance(draw, cfg.earlier_sharing[0], cfg.earlier_sharing[1]):
+        e = earlier_queries_sharing_comparisons(draw, ctx, cond)
+        if e:
+            case["earlier_queries_sharing_comparisons"] = e
+            case["all_queries_built_before_any_is_evaluated"] = draw(st.booleans())
     # selection
     if cfg.select == "first" or nvars == 1 and not cfg.value_terms_in_select:
         sel_vars = [0] if cfg.select == "first" else [0]
